@@ -189,6 +189,9 @@ def stmts(depth=2):
         st.builds(lambda b, u: 'for q in z:\n%s' % _indent('try:\n    pass\nfinally:\n    continue\n' + b, u), sub, unit),
         st.builds(lambda n, b, u: 'class %s(Base, metaclass=M):\n%s' % (n, _indent('"doc"\nx: int = 1\n' + b, u)), NAMES, sub, unit),
         st.builds(lambda n, b, u: 'def %s():\n%s' % (n, _indent('global g1, g2\ng1 = 1\ndef inner():\n    nonlocal v\n    v = 2\nv = 1\n' + b, u)), NAMES, sub, unit),
+        st.builds(lambda n, pre, u: 'def %s():\n%s' % (n, _indent(pre + 'global gx\ngx = 1\n', u)), NAMES,
+                  st.sampled_from(['[gx for gx in y]\n', 'lambda gx: gx\n', '{gx: 1 for gx in y}\n', 'f(gx=1)\n', 'import a.gx\n', 'from gx import z\n',
+                                   'class C:\n    gx = 1\n', 'def gx2(gx): pass\n', 'y.gx = 1\n', '@a.gx\ndef h(): pass\n', 'print(f"gx")\n']), unit),
         st.builds(lambda n, v, u: 'if (%s := %s) > 1:\n%s' % (n, v, _indent('pass\n', u)), st.sampled_from(['x', 'y', 'n']), e, unit),
         st.builds(lambda c, b, u: 'def g():\n%s' % _indent('x = yield\nlambda: (yield)\nreturn %s\n' % c, u), e, sub, unit),
     )
